@@ -95,11 +95,11 @@ def event(u, tid, op, sigs, thunk, fl=None, plain=True, pure=False, case=None):
     return e
 
 
-def law_event(u, tid, law, thunks, cmp='all', case=None, pre='none', ins=()):
+def law_event(u, tid, law, thunks, cmp='all', case=None, pre='none', ins=(), side=True):
     """several REAL computations the property says are equal; cmp: ps | all | starnames | subseq | params"""
     fns = _Fns(u)
     results = [outcome(u, t)[0] for t in thunks]
-    return {'tid': tid, 'op': 'law', 'law': law, 'results': results, 'cmp': cmp, 'pre': pre,
+    return {'tid': tid, 'op': 'law', 'law': law, 'results': results, 'cmp': cmp, 'pre': pre, 'side': bool(side),
             'ins': [absig.project(s, fns) for s in ins], 'case': case}
 
 
